@@ -62,18 +62,18 @@ type E struct {
 	Cmd, Target, File *E
 }
 
-func Var(n string) *E               { return &E{K: KVar, Name: n} }
-func Num(f float64) *E              { return &E{K: KNum, Num: f} }
-func Str(s string) *E               { return &E{K: KStr, Str: s} }
-func Regex(s string) *E             { return &E{K: KRegex, Str: s} }
-func Index(a string, idx ...*E) *E  { return &E{K: KIndex, Name: a, Kids: idx} }
-func Field(e *E) *E                 { return &E{K: KField, Kids: []*E{e}} }
-func Call(f string, args ...*E) *E  { return &E{K: KCall, Name: f, Kids: args} }
-func User(f string, args ...*E) *E  { return &E{K: KUser, Name: f, Kids: args} }
-func Unary(op string, e *E) *E      { return &E{K: KUnary, Op: op, Kids: []*E{e}} }
-func Bin(op string, l, r *E) *E     { return &E{K: KBinary, Op: op, Kids: []*E{l, r}} }
-func Cond(c, t, f *E) *E            { return &E{K: KCond, Kids: []*E{c, t, f}} }
-func Assign(op string, l, r *E) *E  { return &E{K: KAssign, Op: op, Kids: []*E{l, r}} }
+func Var(n string) *E              { return &E{K: KVar, Name: n} }
+func Num(f float64) *E             { return &E{K: KNum, Num: f} }
+func Str(s string) *E              { return &E{K: KStr, Str: s} }
+func Regex(s string) *E            { return &E{K: KRegex, Str: s} }
+func Index(a string, idx ...*E) *E { return &E{K: KIndex, Name: a, Kids: idx} }
+func Field(e *E) *E                { return &E{K: KField, Kids: []*E{e}} }
+func Call(f string, args ...*E) *E { return &E{K: KCall, Name: f, Kids: args} }
+func User(f string, args ...*E) *E { return &E{K: KUser, Name: f, Kids: args} }
+func Unary(op string, e *E) *E     { return &E{K: KUnary, Op: op, Kids: []*E{e}} }
+func Bin(op string, l, r *E) *E    { return &E{K: KBinary, Op: op, Kids: []*E{l, r}} }
+func Cond(c, t, f *E) *E           { return &E{K: KCond, Kids: []*E{c, t, f}} }
+func Assign(op string, l, r *E) *E { return &E{K: KAssign, Op: op, Kids: []*E{l, r}} }
 func Incr(op string, pre bool, e *E) *E {
 	return &E{K: KIncr, Op: op, Pre: pre, Kids: []*E{e}}
 }
